@@ -369,7 +369,14 @@ class PumpedPacketSource(ParserSource):
             while True:
                 try:
                     packet = await self.receive_function()
-                    self.parser.feed_data(packet)
+                    try:
+                        self.parser.feed_data(packet)
+                    except core.InvalidPacketError:
+                        # Same as StreamPacketSource: the parser has dropped what it
+                        # could not frame and is ready for the next packet. Ending the
+                        # pump here would silently drop everything the controller sends
+                        # from now on.
+                        logger.warning("invalid packet, ignoring data")
                 except asyncio.CancelledError:
                     logger.debug('source pump task done')
                     if not self.terminated.done():
